@@ -9,7 +9,7 @@ PROP_FILE = "Props/C11.v"
 THEOREMS = ["C11_suspension_reaches_wait", "C11_wait_blocks_until_release", "C11_release_then_post_rewind",
             "C11_helper_plan_shape", "C11_start_suspender_stops_movers"]
 impl_batch = cc.impl_batch
-coq_term = cc.coq_term
+COQ_IMPORTS = ec.COQ_IMPORTS + "\nFrom BV Require Import Proofs.RE_Hold."
 RULE = ec.RULE + ("; plus C11 extras: suspension at every `_run` step of plans with moved devices, bundles and waits, with/without "
                   "pre/post plans and interruption recording; overlapping second suspension at every later step with both release "
                   "orders; pause+resume while suspended")
@@ -183,3 +183,22 @@ def finding(case, obs):
         return None
     w, fid = _analyse(case, obs)
     return fid
+
+
+def coq_term(case, obs):
+    """the model reproduces the observation AND the Python finding classes stay inside the Coq ones:
+    a violation classified a (b) here must be a schedule in finding_C11_a (finding_C11_b) of Proofs/RE_Hold.v"""
+    if obs.get("errors"):
+        return None
+    from harness.drivers import engine_encode
+    try:
+        e = engine_encode.Enc(case, obs).encode()
+    except engine_encode.Unsupported:
+        return None
+    t = "check %s %s %s %s %s %s %s" % (e["tapes"], e["ledger"], e["paus"], e["stag"], e["rec"], e["evs"], e["obs"])
+    fid = finding(case, obs)
+    if fid == "a":
+        t = "andb (%s) (finding_C11_a %s)" % (t, e["evs"])
+    elif fid == "b":
+        t = "andb (%s) (finding_C11_b %s)" % (t, e["evs"])
+    return t
